@@ -4,6 +4,7 @@ package main
 // common/common.go, common/fcv.go, main/main.go) -> RSVerif/Generated/SyncConsts.lean
 
 import (
+	"path/filepath"
 	"fmt"
 	"go/ast"
 	"go/token"
@@ -167,6 +168,59 @@ func c0304SendLits() (lits []string, formats []string, suffixes []string) {
 		}
 		return true
 	})
+	// forwarding functions/methods of the package: `func (ds *DbSyncer) mustSend(c redigo.Conn, cmd string, args ...interface{})`
+	// whose body holds exactly one `<param>.Send(<param>, …)` — a call of it IS that Send of the corresponding argument
+	fwdArg := map[string]int{}
+	for _, file := range pkgFiles(filepath.Dir(c0304Incr)) {
+		pf := parseQuiet(file)
+		if pf == nil {
+			continue
+		}
+		for _, d := range pf.Decls {
+			fn, ok := d.(*ast.FuncDecl)
+			if !ok || fn.Body == nil || fn.Type.Params == nil || fn.Name.Name == "sendTargetCommand" {
+				continue
+			}
+			var params []string
+			for _, fl := range fn.Type.Params.List {
+				for _, n := range fl.Names {
+					params = append(params, n.Name)
+				}
+			}
+			sends, idx := 0, -1
+			ast.Inspect(fn.Body, func(x ast.Node) bool {
+				ce, ok := x.(*ast.CallExpr)
+				if !ok || len(ce.Args) < 1 {
+					return true
+				}
+				se, ok := ce.Fun.(*ast.SelectorExpr)
+				if !ok || se.Sel.Name != "Send" {
+					return true
+				}
+				recv, ok1 := se.X.(*ast.Ident)
+				a0, ok2 := ce.Args[0].(*ast.Ident)
+				if !ok1 || !ok2 {
+					return true
+				}
+				isParam := func(n string) int {
+					for i, p := range params {
+						if p == n {
+							return i
+						}
+					}
+					return -1
+				}
+				if isParam(recv.Name) >= 0 && isParam(a0.Name) >= 0 {
+					sends++
+					idx = isParam(a0.Name)
+				}
+				return true
+			})
+			if sends == 1 {
+				fwdArg[fn.Name.Name] = idx
+			}
+		}
+	}
 	inAlias := func(n ast.Node) bool {
 		for _, fl := range aliasBodies {
 			if n.Pos() >= fl.Pos() && n.End() <= fl.End() {
@@ -184,7 +238,21 @@ func c0304SendLits() (lits []string, formats []string, suffixes []string) {
 		if id, ok := ce.Fun.(*ast.Ident); ok && alias[id.Name] {
 			isSend = true
 		}
-		if isSend && len(ce.Args) >= 1 {
+		sendArg := 0
+		{
+			name := ""
+			switch f := ce.Fun.(type) {
+			case *ast.Ident:
+				name = f.Name
+			case *ast.SelectorExpr:
+				name = f.Sel.Name
+			}
+			if i, ok := fwdArg[name]; ok && name != "Send" && i < len(ce.Args) {
+				isSend, sendArg = true, i
+			}
+		}
+		if isSend && len(ce.Args) > sendArg {
+			ce = &ast.CallExpr{Fun: ce.Fun, Args: ce.Args[sendArg:]}
 			if bl, ok := ce.Args[0].(*ast.BasicLit); ok && bl.Kind == token.STRING {
 				s, _ := evalStr(bl, constEnv{})
 				lits = append(lits, s)
@@ -192,7 +260,7 @@ func c0304SendLits() (lits []string, formats []string, suffixes []string) {
 				lits = append(lits, "<"+srcOf(ce.Args[0])+">")
 			}
 		}
-		if c0304IsSel(ce.Fun, "c", "Flush") {
+		if c0304IsSel(ce.Fun, "c", "Flush") && sendArg == 0 {
 			lits = append(lits, "<Flush>")
 		}
 		if c0304IsSel(ce.Fun, "fmt", "Sprintf") && len(ce.Args) == 3 {
@@ -205,6 +273,9 @@ func c0304SendLits() (lits []string, formats []string, suffixes []string) {
 		}
 		return true
 	})
+	if len(lits) == 0 {
+		fail("%s: no c.Send call found in sendTargetCommand", c0304Incr)
+	}
 	return
 }
 
